@@ -170,6 +170,41 @@ def run(ctx):
         ctx.case("serializer-reuse", str(i), nontrivial=True)
         if a != b:
             ctx.fail("reused-serializer-differs", "a reused HTMLSerializer returns something else than a fresh one", {"i": i})
+    # aborted serializer calls of every kind, stopped inside every kind of context, then reuse
+    from html5lib.serializer import SerializeError
+    inner = ["<script>a</b</script>", "<style>x</y</style>", "<xmp>1</2</xmp>", "<noscript><p \u00e9=1>n</noscript>", "<iframe>a</b</iframe>",
+             "<textarea>t</textarea>", "<title>t</title>", "<pre>\nx</pre>", "<svg><title>s</title></svg>", "<!--a--b-->", "<p \u00e9=1>x"]
+    follow = ["<p>1 &lt; 2 &amp;&amp; 3 &gt; 2</p>", "<div a=b>x &amp; y<b>c</b></div>", "<script>z</script><p>&lt;</p>"]
+    for i, bad in enumerate(inner):
+        for mode in ("strict", "ascii", "abandon"):
+            for fo in follow:
+                sr = HTMLSerializer(omit_optional_tags=False)
+                t1 = html5lib.parse("<p>before</p>" + bad + "<p>after</p>")
+                try:
+                    if mode == "strict":
+                        sr.strict = True
+                        try:
+                            sr.render(w(t1))
+                        finally:
+                            sr.strict = False
+                    elif mode == "ascii":
+                        sr.render(w(t1), "ascii")
+                    else:
+                        g = sr.serialize(w(t1))
+                        for k_, _chunk in enumerate(g):
+                            if k_ >= 6 + i % 5:
+                                break
+                        del g
+                except (SerializeError, UnicodeError):
+                    pass
+                t2 = html5lib.parse(fo)
+                a = (sr.render(w(t2)), list(sr.errors))
+                s3 = HTMLSerializer(omit_optional_tags=False)
+                b = (s3.render(w(t2)), list(s3.errors))
+                ctx.case("serializer-reuse-after-abort", "%s|%s|%s" % (bad, mode, fo), nontrivial=True)
+                if a != b:
+                    ctx.fail("reused-serializer-differs", "a reused HTMLSerializer returns something else than a fresh one",
+                             {"aborted_document": bad, "abort": mode, "next": fo, "reused": repr(a)[:300], "fresh": repr(b)[:300]})
     # threads: independent parser objects in parallel
     docs = [gen.soup(rng, maxparts=20) * 3 for _ in range(8)]
     expect = [result_of(fresh("etree"), ("parse", d, {})) for d in docs]
